@@ -6,8 +6,11 @@
 (2) build + audit the theorems of Props/C13.lean (the table theorems are about the regenerated text);
 (3) malformed-input stream, each malformed operation followed by canaries with known answers, through core.Location
     (both states), sys.System and service.HTTPService; outcome classes (ok / err / panic+site / hang / crash) are
-    compared with the prediction of the lock-aware Lean model;
-(4) replay of the witnesses of the known findings.
+    compared with the prediction of the lock-aware Lean model; the inputs of the five repaired defect classes (non-map
+    `when` / `when.pattern`, scheduled rules with such a `when` that are overwritten / removed / expire, non-map `rule`
+    in the linear state) are generated with high frequency and compared with the model by value;
+(4) replay of the witnesses of the known findings that remain. The repaired classes (ids under `fixed` in
+    known_findings.json) are not tolerated: a panic or a blocked location on such an input is a VIOLATION.
 """
 import sys, os, json, copy, collections, time
 sys.path.insert(0, os.path.join(os.path.dirname(os.path.abspath(__file__)), "..", "lib"))
@@ -15,7 +18,7 @@ from vlib import *
 import gen_c13 as g
 
 GEN = os.path.join(LEAN, "RulioModel", "Gen", "C13.lean")
-MAXREP = 6      # distinct failing inputs reported per run (more of the same add nothing)
+MAXREP = 8      # distinct failing inputs reported per run (more of the same add nothing)
 
 
 def regenerate(ck):
@@ -91,6 +94,17 @@ def signature(res, case=None):
     return None
 
 
+def dedup_key(kind, case, k, txt, impl):
+    """one report per kind of failure: a panic is identified by its site and the four frames that lead to it (and the state),
+    whatever the way in and the operation; anything else by way in, operation and the head of its text"""
+    io = ((impl or {}).get("outs") or [{}] * (k + 1))[k] if k >= 0 and k < len((impl or {}).get("outs") or []) else {}
+    if io.get("cls") == "panic":
+        site = io.get("site") or {}
+        return (kind, "panic", site.get("fn"), tuple((site.get("frames") or [])[:5]), case.get("state"))
+    op = case["ops"][k] if 0 <= k < len(case["ops"]) else {}
+    return (kind, case.get("via"), op.get("op"), txt[:50])
+
+
 def rerun(case, drv, mdl, known, patient=True):
     c = copy.deepcopy(case)
     for o in c["ops"]:
@@ -135,7 +149,8 @@ def main():
     ck.cov["trusted_base"] = TRUSTED_BASE + [
         "extractor harness/cmd/extract_c13 (go/ast): syntactic notion of 'unchecked assertion / explicit panic / constant index / condition-less loop' and of 'deferred unlock'",
         "the hand-written classification (safe / unreachable / outOfScope, with reasons) of the extracted rows in RulioModel/C13.lean: read, not proved",
-        "the sequential State/Location model (RulioModel/State.lean, Loc.lean ...) under the lock wrapper; tie = the differential run below",
+        "the sequential State/Location model under the lock wrapper (RulioModel/State.lean, Loc.lean ...; the functions on the two repaired paths -- GetRulePatterns, LinearState.doFindRules -- are restated with the repaired behaviour in RulioModel/C13.lean section 2); tie = the differential run below",
+        "the fault oracle of the wrapper model (a State method body that panics at a place the tables do not list) is hypothetical: no run exercises it; it gives the lock theorems their 'whatever panics' reading",
         "panics that are not unchecked assertions / explicit panics / constant indexes (nil dereference, nil map write, concurrent map access, stack exhaustion) are only searched by the malformed stream",
         "stack depth and wall-clock bounds are runtime: per-op watchdog (0.5 s ordinary traffic, 3 s malformed op), 96 MB stack limit in the harness",
     ]
@@ -175,7 +190,11 @@ def main():
     if table_broken:
         log("note: extracted tables differ from the accounted ones: new=%s gone=%s locks=%s" % (new_rows, gone_rows, lock_changes))
 
-    kf = known_findings("C13") or g.PROPOSED
+    # repaired classes are no longer tolerated; their former witnesses keep running as ordinary cases (g.FORMER)
+    repaired = fixed_finding_ids("C13") | set(f["id"] for f in g.FORMER)
+    listed = {f["id"]: f for f in known_findings("C13")}
+    kf = [listed.get(f["id"], f) for f in g.PROPOSED] + [f for i, f in listed.items() if i not in [p["id"] for p in g.PROPOSED]]
+    kf = [f for f in kf if f["id"] not in repaired and f.get("witness")]
     rng = ck.rng
     if "--replay" in sys.argv:
         d = json.load(open(sys.argv[sys.argv.index("--replay") + 1]))
@@ -196,6 +215,8 @@ def main():
             if l.strip():
                 cases.append(json.loads(l))
     ncorpus = len(cases)
+    cases += g.former_witnesses()
+    cases += g.formerly_fatal(rng, 8000 if ck.thorough else (2000 if widen else 1000))
     if ck.thorough:
         for via in ("core", "sys", "http"):
             cases += g.systematic(rng, vias=(via,), deep=deep, stride=1, both=True)
@@ -215,6 +236,7 @@ def main():
         cases.append(g.random_case(rng, vias=("core", "core", "sys", "http"), maxdepth=6 if widen else 4))
 
     stats = collections.Counter()
+    families = collections.Counter()
     known_hits = collections.Counter()
     reported = set()
     vias = collections.Counter()
@@ -251,7 +273,7 @@ def main():
             return
         k0, _, txt0 = res["issues"][0]
         op0 = case["ops"][k0] if k0 >= 0 else {}
-        pre = (kind, case.get("via"), op0.get("op"), txt0[:50])
+        pre = dedup_key(kind, case, k0, txt0, impl)
         if pre in reported or ck.violations >= MAXREP:
             stats["duplicate_" + kind] += 1
             return
@@ -263,7 +285,7 @@ def main():
                 return
         k, _, txt = r2["issues"][0]
         op = c2["ops"][k] if k >= 0 else {}
-        key = (kind, case.get("via"), op.get("op"), txt[:50])
+        key = dedup_key(kind, case, k, txt, i2)
         if key in reported:
             stats["duplicate_" + kind] += 1
             return
@@ -273,8 +295,14 @@ def main():
         io = i2["outs"][k] if 0 <= k < len(i2.get("outs", [])) else {}
         impl_fails = io.get("cls") in g.BAD or bool(op.get("canary") and g.canary_ok(op, io))
         # impl != model while the implementation itself answers fine: the correspondence is broken, no failing input
-        no_input = kind == "internal" or (kind in ("class", "site", "canary-value") and not impl_fails)
+        no_input = kind == "internal" or (kind in ("class", "site", "canary-value", "value") and not impl_fails)
         what = "%s [%s/%s op %d %s]: %s" % (kind, case.get("via"), case.get("state"), k, op.get("op"), txt)
+        # what the requests after the failing one saw: a blocked (poisoned) location shows as hangs
+        after = [(o or {}).get("cls") for o in (i2.get("outs") or [])[k + 1:]]
+        blocked = sum(1 for x in after if x in ("hang", "skipped"))
+        if after and io.get("cls") in g.BAD:
+            what += " | afterwards %d of the %d following requests blocked%s" % (
+                blocked, len(after), " (the location is poisoned)" if blocked else " (the location still serves)")
         ck.violation(what, {"case": small, "full_case": case, "impl": i2, "model": m2, "correspondence": "c13.run outcome classes impl vs lock-aware Lean model"}, tag=kind, no_input=bool(no_input))
 
     # run in slices so that memory stays flat on the thorough tier
@@ -284,6 +312,8 @@ def main():
         impl, model, mcases = g.run_both(chunk, drv, mdl)
         for c, i, m in zip(mcases, impl, model):
             vias[c.get("via", "core") + "/" + c.get("state", "indexed")] += 1
+            if c.get("family"):
+                families[c["family"].split(":")[0]] += 1
             for o in c["ops"]:
                 if o.get("slow"):
                     roles[o["op"]] += 1
@@ -314,10 +344,14 @@ def main():
 
     ck.cov["rule"] = ("histories on one location: [optional ordinary prefix] + malformed operation(s) (reserved key x wrong type x role fact/rule/pattern/query/event; "
                       "variable-looking strings as values and keys; empty, deep (to depth %d) and heterogeneous containers; long strings; near-duplicate keys; random documents over reserved keys) "
-                      "+ follow-up operations on the same id + 8 canaries with known answers; via core.Location (indexed, linear), sys.System, service.HTTPService.ServeHTTP; "
+                      "+ follow-up operations on the same id + 8 canaries with known answers; "
+                      "the formerly fatal family (non-map `when` / `when.pattern` incl. null through AddFact and AddRule, with and without schedule / ttl, non-map `rule`; "
+                      "over nothing / a good rule / another bad rule / a dependent fact; followed by get, overwrite, remove, expiry (sleep), events, rule searches, trigger, listRules, queries) "
+                      "whose every answer is compared with the model by value; via core.Location (indexed, linear), sys.System, service.HTTPService.ServeHTTP; "
                       "non-trivial = every case (each carries at least one malformed document); distinct by via, state and non-canary ops" % deep)
     ck.cov["distribution"] = {"outcomes": dict(stats), "via_state": dict(vias), "malformed_op_roles": dict(roles),
-                              "known_class_hits": dict(known_hits), "cases": len(cases), "corpus": ncorpus}
+                              "known_class_hits": dict(known_hits), "cases": len(cases), "corpus": ncorpus,
+                              "families": dict(families), "repaired_classes_not_tolerated": sorted(repaired)}
     ck.cov["traces_validated_against_impl"] = len(cases)
 
     # ---------------------------------------------------------------- known findings: replay the witnesses
